@@ -42,6 +42,7 @@ def msg_strategy(big=False):
         'sensitive': st.booleans(),
         'comp': st.sampled_from([0, 1, 2, 3]),
         'signers': st.lists(st.sampled_from(['ed25519-1', 'ecdsa-p256-0', 'dsa1024-0', 'rsa1024-1']), max_size=2, unique=True),
+        'peek': st.booleans(),
     })
 
 
@@ -73,6 +74,10 @@ def build_pgpy_message(spec):
     else:
         msg = pgpy.PGPMessage.new(body, format='b', **kw)
     for i, kid in enumerate(spec.get('signers', [])):
+        if spec.get('peek'):
+            # the application looks at (exports, displays) the message before each further step: must not change what comes later
+            bytes(msg)
+            str(msg)
         signer = keypool.pgpy_key(keypool.ref_cert(kid, secret=True))
         msg |= signer.sign(msg, created=datetime.datetime.fromtimestamp(1600000000 + i, datetime.timezone.utc))
     return msg
